@@ -181,7 +181,7 @@ Definition normalize_core (e : env) (o : n_opts) (original url : str) : res nres
 
 Definition normalize_split (e : env) (o : n_opts) (original : str) : res nres :=
   let* url := if infer_redirection_o o then infer_redirection e original else Ok original in
-  normalize_core e o original url.
+  normalize_core e o url url.           (* what is returned unchanged is the resolved url *)
 
 (* urlunsplit(result)[2:] if result.netloc else urlunsplit(result) *)
 Definition drop_netloc_slashes (sp : SplitResult) : str :=
